@@ -112,6 +112,37 @@ def clause4(P, res):
         res.holds(rid, "shard-lock-sites", f"{n} shard lock acquisitions in iteration/snapshot code, all blocking", where="cache/src/iter.rs", obligations=n)
 
 
+def clause5(P, res):
+    rid = "C17-5"
+    res.rule(rid, "a persisted deadline cannot be lost: in every body that turns an entry's expires_at into a remaining lifetime (checked_sub against a clock sample), "
+                  "that clock sample is taken before (dominates) the is_expired test that admits the entry — a sample taken after the scan lets an entry pass the "
+                  "liveness test, then find its deadline behind the reference clock: checked_sub yields None, which the restore reads as 'no TTL' (immortal)")
+    n = 0
+    for b in cl.cache_bodies(P):
+        for cs in [e for e in b.calls() if e.method == "checked_sub" and "Duration" in e.callee and len(e.args) > 1]:
+            if not c12.derives_from_deadline(b, cs.args[0]):
+                evs, _, _ = mir.operand_sources(b, cs.args[0])
+                if not any(x.kind == "call" and x.method == "from_nanos" and any(c12.derives_from_deadline(b, a) for a in x.args) for x in evs):
+                    continue
+            n += 1
+            key = f"{b.id}:ttl_remaining"
+            clocks = [x for x in mir.operand_sources(b, cs.args[1])[0] if x.kind == "call" and re.search(r"now_duration$|Instant::now$", x.callee_resolved or x.callee or "")]
+            tests = [x for x in b.calls() if cl.is_expired_call(x)]
+            if not clocks:
+                res.violated(rid, key, f"the remaining lifetime at {cs.loc} is computed against a value that is not a clock sample taken in this function: it cannot be shown to "
+                             "precede the liveness test of the entry", where=cs.loc)
+            elif not tests:
+                res.violated(rid, key, f"the remaining lifetime at {cs.loc} is computed in a function that does not itself test is_expired: the clock sample at {clocks[0].loc} is "
+                             "not ordered before the liveness test that admitted the entry (an entry expiring in between is persisted without a deadline)", where=cs.loc)
+            elif all(b.dominated_by_any(t.pos, {c.pos for c in clocks}) for t in tests):
+                res.holds(rid, key, f"clock sampled at {clocks[0].loc}, before every liveness test", where=cs.loc, witness=[f"is_expired {t.loc}" for t in tests])
+            else:
+                res.violated(rid, key, f"the reference clock ({clocks[0].loc}) is sampled after a liveness test ({tests[0].loc}): an entry that expires in between is persisted with "
+                             "ttl_remaining = None and restored without a deadline", where=cs.loc)
+    if n < 2:
+        res.unclassified(rid, "ttl_remaining-sites", f"expected the two to_snapshot bodies to compute remaining lifetimes, found {n}", where="rules/c17.py")
+
+
 def run(P, ctx):
     res = Result("C17")
     res.extra["explanation"] = ("Expiry gate on everything iterators and snapshots yield, and restore-is-an-insertion (cost accounted, policy informed, same shard index "
@@ -135,6 +166,7 @@ def run(P, ctx):
             res.unclassified("C17-1", bid, "no value source recognised")
     clause3(P, res)
     clause4(P, res)
+    clause5(P, res)
     rid = "C17-2"
     res.rule(rid, "restore is an insertion like any other: the snapshot-restore path accounts the restored cost in current_cost, announces every restored entry to "
                   "its shard's eviction policy, and places entries with the same shard-index function that lookups use")
